@@ -26,7 +26,8 @@ StreamGuards(e) ==
      <<"G_C20_SameBytes", \A j \in DOMAIN fast : fast[j] # 0>>,
      \* responses are numbered in issuing order, so "subsequence of the responses" is "strictly increasing"
      <<"G_C20_Order", \A i, j \in DOMAIN fast : i < j => fast[i] < fast[j]>>,
-     <<"G_C20_NeverBlocks", e.maxIssueMsWithStalledSubscriber < 1500>>,
+     \* floodMs = -1: 24000 publications (36 MB) did not all return within 20 s while a subscriber was not reading
+     <<"G_C20_NeverBlocks", e.maxIssueMsWithStalledSubscriber < 1500 /\ e.floodMs >= 0>>,
      <<"G_C20_LoginsReported", e.loginsMissing = 0>>,
      <<"G_C20_ArrivesWithResponse", e.lateEvents = 0>>}
 TInit == Init /\ l = 1 /\ viol = {}
